@@ -53,7 +53,7 @@ def gen(rng, tier):
     elif dense:
         ops = set(common.DENSE_PAST_OPS) | ({'eventually_b', 'always_b'} if future else set())
     else:
-        ops = set(common.PAST_OPS) | ({'eventually_b', 'always_b', 'until_b', 'next'} if future else set())
+        ops = set(common.PAST_OPS) | ({'eventually_b', 'always_b', 'until_b', 'unless_b', 'next'} if future else set())
     for _ in range(200):
         ast = sg.gen_formula(rng, sg.GenCfg(vars=vars_, ops=ops, max_depth=rng.randint(2, 4), max_bound=rng.choice([2, 4]),
                                             p_loose=0.03, allow_const_only=rng.random() < 0.1))
